@@ -151,8 +151,8 @@ Clauses(e, n) ==
         << << "C02", "marks" >>, { << e.marks[k].pid, e.marks[k].asset, e.marks[k].px >> : k \in 1..Len(e.marks) } = expMarks >>,
         \* holdings = net of the OBSERVED fills, valued at the latest price seen (ghosts follow the observed sub-events)
         << << "C02", "domain" >>, \A p \in ps \cap DOMAIN net' : DOMAIN lhold'[p] = { a \in Assets : net'[p][a] # 0 } >>,
-        << << "C02", "qty" >>, \A p \in ps \cap DOMAIN net' : \A a \in DOMAIN lhold'[p] : lhold'[p][a].qty = net'[p][a] >>,
-        << << "C02", "mv" >>, Amt(\A p \in ps \cap DOMAIN seen' : \A a \in DOMAIN lhold'[p] :
+        << << "C02", "qty" >>, \A p \in ps \cap DOMAIN net' : \A a \in DOMAIN lhold'[p] \cap Assets : lhold'[p][a].qty = net'[p][a] >>,   \* (a reported asset the model does not know is "domain"'s finding)
+        << << "C02", "mv" >>, Amt(\A p \in ps \cap DOMAIN seen' : \A a \in DOMAIN lhold'[p] \cap Assets :
              lhold'[p][a].mv = lhold'[p][a].qty * seen'[p][a]) >>,
         \* P&L: realised as the accounting says; the three identities of C03 relative to the price the
         \* implementation currently values the holding at
